@@ -1,9 +1,9 @@
-import TapkeeVerif.Proofs.FibHeapRefine
+import TapkeeVerif.Proofs.FibHeapOob
 /-!
 Property C16 — the Fibonacci heap (`include/tapkee/utils/fibonacci_heap.hpp`) is a correct indexed
 min-priority queue under every history.  Statements about the executable model
 `Model/FibHeap.lean` (validated byte-for-byte against the real class by `checks/c16.py`);
-all quantify over every capacity and every operation list.
+all quantify over every capacity and every operation list (induction over the history, no bounds).
 -/
 namespace TapkeeVerif.FibHeap
 
@@ -14,16 +14,104 @@ theorem inv_reachable (cap dn : Nat) (ops : List Op) (h : Heap) (outs : List Out
     (hrun : run (Heap.init cap dn) ops = .ok (h, outs)) : Inv h :=
   (run_ok ops (inv_init cap dn) (List.Perm.refl _) hrun).1
 
-/-- Every output sequence of the model is one the finite-map specification allows. -/
+/-- In every reachable heap `min_root` carries a key ≤ every stored key. -/
+theorem min_root_minimal (cap dn : Nat) (ops : List Op) (h : Heap) (outs : List Out)
+    (hrun : run (Heap.init cap dn) ops = .ok (h, outs)) (m : Tr) (rs : List Tr)
+    (hr : h.roots = m :: rs) : ∀ e ∈ h.forest.entries, m.key ≤ e.2 := by
+  have := (inv_reachable cap dn ops h outs hrun).head_le_all hr
+  simpa [Heap.forest] using this
+
+/-- Every output sequence of the model is one the finite-map specification allows: `extract_min`
+    returns an index whose key is minimal among the stored ones together with that key and removes
+    it (`-1` on empty), reported sizes equal the number of stored indices, guarded calls change
+    nothing, `get_key` reads the map. -/
 theorem refines_map (cap dn : Nat) (ops : List Op) (h : Heap) (outs : List Out)
     (hrun : run (Heap.init cap dn) ops = .ok (h, outs)) : Spec.accepts cap [] ops outs = true :=
   (run_ok ops (inv_init cap dn) (List.Perm.refl _) hrun).2
 
 /-- `decrease_key` never makes `min_root` point to a non-root node (the model's `corrupt` state is
-    unreachable). -/
+    unreachable), whatever the size of the consolidation array. -/
 theorem no_corrupt (cap dn : Nat) (ops : List Op) : run (Heap.init cap dn) ops ≠ .error .corrupt := by
   intro h
   have := (run_error ops (inv_init cap dn) h).1
   cases this
+
+/-- `consolidate` never indexes `A` at or beyond `Dn` when `Dn` is the constructor's value
+    (`dnOf cap`, the first `Dn ≥ 1` with `fib (Dn + 2) > capacity`): the classical degree bound. -/
+theorem no_oob (cap : Nat) (ops : List Op) : run (Heap.init cap (dnOf cap)) ops ≠ .error .oob :=
+  run_no_oob cap (dnOf cap) (dnOf_spec cap) ops
+
+/-- the same for any array size `dn` with `fib (dn + 2) > capacity` -/
+theorem no_oob_of_fib (cap dn : Nat) (hdn : cap < fib (dn + 2)) (ops : List Op) :
+    run (Heap.init cap dn) ops ≠ .error .oob :=
+  run_no_oob cap dn hdn ops
+
+/-- consequently every history runs to completion in the model -/
+theorem run_total (cap : Nat) (ops : List Op) :
+    ∃ h outs, run (Heap.init cap (dnOf cap)) ops = .ok (h, outs) := by
+  cases hr : run (Heap.init cap (dnOf cap)) ops with
+  | ok p => exact ⟨p.1, p.2, rfl⟩
+  | error e =>
+    cases e with
+    | oob => exact absurd hr (no_oob cap ops)
+    | corrupt => exact absurd hr (no_corrupt cap (dnOf cap) ops)
+
+/-- Fuel adequacy of `carry` (the model calls it with fuel `a.length + 1`): the result is `none`
+    exactly when every slot from `d` to the end of the array is occupied, i.e. when the C++ loop
+    `while (A[d] != NULL) … d++` reads `A[Dn]`.  Fuel exhaustion is never the reason. -/
+theorem carry_fuel_adequate (a : Slots) (x : Tr) (d : Nat) :
+    carry (a.length + 1) a x d = none ↔ ∀ j, d ≤ j → j < a.length → ∃ y, a[j]? = some (some y) :=
+  carry_none_iff_oob (a.length + 1) a x d (by omega)
+
+/-- Fuel adequacy of `dnOf`: the constructor's loop stopped because `fib > capacity` (not because
+    the fuel `cap + 1` ran out), and at the first such value. -/
+theorem dnOf_fuel_adequate (cap : Nat) :
+    cap < fib (dnOf cap + 2) ∧ (dnOf cap = 1 ∨ fib (dnOf cap + 1) ≤ cap) :=
+  ⟨dnOf_spec cap, dnOf_min cap⟩
+
+/-! ### non-vacuity: a concrete history with a cascading cut and several `extract_min`s -/
+
+/-- nine inserts, an `extract_min` that consolidates eight nodes into one tree of rank 3
+    (`1 → {2, 5 → {6, 7 → {8}}, 3 → {4}}`), a `decrease_key` that cuts 6 (marks 5), a second one
+    that cuts 7 and, 5 being marked, cascades to cut 5 as well, two `extract_min`s, then guards. -/
+def demoOps : List Op :=
+  [.insert 0 0, .insert 1 11, .insert 2 12, .insert 3 13, .insert 4 14, .insert 5 15, .insert 6 16,
+   .insert 7 17, .insert 8 18, .extract, .decrease 6 2, .decrease 7 3, .extract, .extract,
+   .getKey 5, .decrease 4 99, .insert 1 5, .insert 10 1, .decrease 0 (-1), .extract, .clear, .extract]
+
+def demoOuts : List Out :=
+  [.size 1, .size 2, .size 3, .size 4, .size 5, .size 6, .size 7, .size 8, .size 9,
+   .extracted 8 (some (0, 0)), .size 8, .size 8, .extracted 7 (some (6, 2)),
+   .extracted 6 (some (7, 3)), .key (some 15), .size 6, .size 6, .size 6, .size 6,
+   .extracted 5 (some (1, 11)), .size 0, .extracted 0 none]
+
+/-- outputs of a finished run -/
+def outsOf (r : Except Err (Heap × List Out)) : Option (List Out) :=
+  match r with
+  | .ok (_, outs) => some outs
+  | .error _ => none
+
+/-- the hypothesis `run … = .ok …` of the theorems above is met, with the expected outputs -/
+example : outsOf (run (Heap.init 10) demoOps) = some demoOuts := by decide
+
+/-- the second `decrease_key` really cascades: three trees (6, 7 and the marked 5) were cut -/
+example : (match run (Heap.init 10) (demoOps.take 12) with
+    | .ok (h, _) => some (h.numTrees, h.roots.map (·.idx))
+    | .error _ => none) = some (4, [6, 5, 7, 1]) := by decide
+
+/-- the specification accepts these outputs and rejects a wrong extracted index -/
+example : Spec.accepts 10 [] demoOps demoOuts = true := by decide
+example : Spec.accepts 10 [] (demoOps.take 13)
+    ((demoOuts.take 12) ++ [.extracted 7 (some (7, 3))]) = false := by decide
+
+/-- the error states are real: with a too small array the model does report `oob`
+    (capacity 8, `Dn = 2`: the third carry reaches `A[2]`) -/
+example : (match run (Heap.init 8 2) (demoOps.take 10) with
+    | .error .oob => true
+    | _ => false) = true := by decide
+
+/-- `dnOf` on small capacities (the C++ loop gives the same values; checked for every capacity up to
+    2049 by `checks/c16.py`) -/
+example : (List.range 14).map dnOf = [1, 1, 2, 3, 3, 4, 4, 4, 5, 5, 5, 5, 5, 6] := by decide
 
 end TapkeeVerif.FibHeap
